@@ -46,7 +46,27 @@ type conn struct {
 	closeDone   bool
 	afterClosed int // bytes accepted after the transport was closed (must stay 0)
 	who         func() string
+	// one-shot transport fault: the At-th Write call (counted over all goroutines, so it hits whichever frame part the
+	// schedule puts there) accepts Accept bytes (-1 = half) and fails; the transport works again afterwards
+	fault      *faultSpec
+	nWrites    int
+	faultFired bool
+	faultOwner string
 }
+
+type faultSpec struct {
+	At      int
+	Timeout bool // the error is a net.Error with Timeout() == true (an expired write deadline), else a plain error
+	Accept  int
+}
+
+type timeoutErr struct{}
+
+func (timeoutErr) Error() string   { return "i/o timeout (injected)" }
+func (timeoutErr) Timeout() bool   { return true }
+func (timeoutErr) Temporary() bool { return true }
+
+var errInjected = errors.New("injected transport failure")
 
 var errClosedTransport = errors.New("transport closed")
 
@@ -59,6 +79,23 @@ func (c *conn) Write(p []byte) (int, error) {
 	}
 	if c.closed {
 		return 0, errClosedTransport
+	}
+	c.nWrites++
+	if c.fault != nil && !c.faultFired && c.nWrites-1 == c.fault.At {
+		c.faultFired, c.faultOwner = true, c.who()
+		n := c.fault.Accept
+		if n < 0 {
+			n = len(p) / 2
+		}
+		if n > len(p) {
+			n = len(p)
+		}
+		c.wire = append(c.wire, p[:n]...)
+		c.writes = append(c.writes, wireWrite{c.who(), n})
+		if c.fault.Timeout {
+			return n, timeoutErr{}
+		}
+		return n, errInjected
 	}
 	c.wire = append(c.wire, p...)
 	c.writes = append(c.writes, wireWrite{c.who(), len(p)})
@@ -133,6 +170,7 @@ type scenarioSpec struct {
 	ThBounds []int
 	Prune    bool
 	Timeouts bool // lock-wait timeouts of WriteControl are explored as costed environment deviations
+	Fault    *faultSpec
 }
 
 type callResult struct {
@@ -220,7 +258,7 @@ func runOp(d *execData, th string, op string, setWho func()) {
 
 func newExec(spec *scenarioSpec, sched bool) *execData {
 	d := &execData{spec: spec}
-	d.c = &conn{sched: sched}
+	d.c = &conn{sched: sched, fault: spec.Fault}
 	hasR := false
 	for _, t := range spec.Threads {
 		for _, o := range t.Ops {
@@ -260,7 +298,16 @@ func judge(d *execData) (outcome, key, what string) {
 		seq = append(seq, fmt.Sprintf("%s:%d%s", o, f.Opcode, map[bool]string{true: "F", false: ""}[f.Fin]))
 	}
 	outcome = strings.Join(seq, " ") + fmt.Sprintf(" rest=%d", len(rest))
-	if len(rest) > 0 {
+	if len(rest) > 0 && c.faultFired {
+		// a failed transport write may leave the frame it belonged to unfinished; nothing may follow it: every byte of
+		// the unfinished tail belongs to the goroutine whose write failed
+		start := len(c.wire) - len(rest)
+		for j := start; j < len(c.wire); j++ {
+			if owner[j] != c.faultOwner {
+				return outcome, "bytes-after-failed-frame", fmt.Sprintf("transport write #%d (by %s) failed and left its frame unfinished at wire offset %d, yet %s put bytes on the wire afterwards (offset %d): they sit inside the unfinished frame; wire writes: %v", c.fault.At, c.faultOwner, start, owner[j], j, c.writes)
+			}
+		}
+	} else if len(rest) > 0 {
 		if !c.closed {
 			return outcome, "wire-truncated", fmt.Sprintf("the wire ends with %d bytes that are not a whole frame although the transport was never closed: %x; writes: %v", len(rest), rest, c.writes)
 		}
@@ -268,7 +315,7 @@ func judge(d *execData) (outcome, key, what string) {
 	evs, err := wsref.SenderCheck(frames, !d.spec.Server, false)
 	if err != nil {
 		// a message left unfinished at the end is acceptable only if a Close frame or a transport close cut the writer off
-		cut := c.closed
+		cut := c.closed || c.faultFired
 		for _, f := range frames {
 			if f.Opcode == wsref.OpClose {
 				cut = true
@@ -317,6 +364,9 @@ func judge(d *execData) (outcome, key, what string) {
 		if strings.Contains(r.Err, "write timeout") && r.Op == "T" && d.spec.Timeouts {
 			continue // a control write with a deadline may give up waiting for the lock; nothing of it reaches the wire
 		}
+		if c.faultFired {
+			continue // after the injected transport failure writers may fail with it
+		}
 		if r.Err != "" && r.Err != "ErrCloseSent" && !c.closed {
 			return outcome, "unexpected-write-error", fmt.Sprintf("call %s by %s failed with %q although no Close frame was sent before it started and the transport was open", r.Op, r.Thread, r.Err)
 		}
@@ -330,7 +380,7 @@ func judge(d *execData) (outcome, key, what string) {
 			}
 		}
 	}
-	if !hasCloser && k != len(want) {
+	if !hasCloser && !c.faultFired && k != len(want) {
 		return outcome, "data-missing", fmt.Sprintf("%d of %d data messages reached the wire", k, len(want))
 	}
 	if c.afterClosed > 0 {
@@ -383,7 +433,7 @@ func mkScenario(c *hl.Ctx, spec scenarioSpec) mc.Scenario {
 	if sp.Prune {
 		s.StateKey = func(x *vsched.Exec) string {
 			d := x.Data.(*execData)
-			return fmt.Sprintf("w=%v wire=%x res=%v cl=%v cd=%v mu=%d we=%s iw=%s", d.c.writes, dump.String(d.c.wire, dump.Options{MaxBytes: 8}), d.results, d.c.closed, d.c.closeDone,
+			return fmt.Sprintf("ff=%v w=%v wire=%x res=%v cl=%v cd=%v mu=%d we=%s iw=%s", d.c.faultFired, d.c.writes, dump.String(d.c.wire, dump.Options{MaxBytes: 8}), d.results, d.c.closed, d.c.closeDone,
 				muLen(d.ws), dump.Field(d.ws, "writeErr", dump.Options{}), dump.Field(d.ws, "isWriting", dump.Options{}))
 		}
 	}
@@ -391,6 +441,26 @@ func mkScenario(c *hl.Ctx, spec scenarioSpec) mc.Scenario {
 }
 
 func specs() []scenarioSpec {
+	l := baseSpecs()
+	// transport write failures: every position of a one-shot failure in the write history x {expired deadline,
+	// plain error} x {nothing accepted, half accepted}
+	T := func(n string, ops ...string) threadSpec { return threadSpec{n, ops} }
+	for at := 0; at < 5; at++ {
+		for _, k := range []faultSpec{{at, true, 0}, {at, false, 0}, {at, true, -1}} {
+			k := k
+			kind := map[bool]string{true: "timeout", false: "error"}[k.Timeout] + map[bool]string{true: "", false: "-partial"}[k.Accept == 0]
+			if at < 4 {
+				l = append(l, scenarioSpec{Name: fmt.Sprintf("fault@%d-%s: srv-extra+ping+pong", at, kind), Server: true, WBuf: 32, Fault: &k,
+					Threads: []threadSpec{T("D", "M200"), T("K1", "P"), T("K2", "O")}, Bounds: []int{0, 1, 2}, ThBounds: []int{0, 1, 2, 3, -1}, Prune: true})
+			}
+			l = append(l, scenarioSpec{Name: fmt.Sprintf("fault@%d-%s: cli-multiframe+ping+close", at, kind), Server: false, WBuf: 16, Fault: &k,
+				Threads: []threadSpec{T("D", "W70"), T("K", "P"), T("Z", "C")}, Bounds: []int{0, 1, 2}, ThBounds: []int{0, 1, 2, 3, -1}, Prune: true})
+		}
+	}
+	return l
+}
+
+func baseSpecs() []scenarioSpec {
 	unb := []int{0, 1, 2, 3, -1}
 	T := func(n string, ops ...string) threadSpec { return threadSpec{n, ops} }
 	return []scenarioSpec{
@@ -418,7 +488,7 @@ func specs() []scenarioSpec {
 }
 
 func run(c *hl.Ctx) {
-	c.Rule("E1: every interleaving within the reported preemption bound (-1 = unbounded, with state-key pruning) of a data writer, control-frame senders, a closer and a ping-answering reader on one real Conn; scheduling points: every transport Write/Read/Close, every receive/send/select on the lock channel c.mu (R3), Lock/Unlock of writeErrMu (R1). state = distinct observable outcome (frame sequence with owning goroutine); transition = scheduling step.")
+	c.Rule("E1: every interleaving within the reported preemption bound (-1 = unbounded, with state-key pruning) of a data writer, control-frame senders, a closer and a ping-answering reader on one real Conn, and the same with a one-shot transport write failure (expired deadline or plain error, nothing or half accepted) at every position 0..4 of the transport write history; scheduling points: every transport Write/Read/Close, every receive/send/select on the lock channel c.mu (R3), Lock/Unlock of writeErrMu (R1). state = distinct observable outcome (frame sequence with owning goroutine); transition = scheduling step.")
 	c.Assume("write deadlines are zero or far in the future: the lock-acquisition timeout path of WriteControl is not explored", "one data writer (the library's documented usage)", "unsynchronised accesses between scheduling points are judged by the separate free-running race-detector pass")
 	if c.Mode() == "race" {
 		racePass(c)
@@ -459,7 +529,7 @@ func racePass(c *hl.Ctx) {
 			if _, err := wsref.SenderCheck(frames, !sp[i].Server, false); err != nil && !strings.Contains(err.Error(), "left unfinished") {
 				c.Violation("wire-invalid", "free-running pass: "+err.Error(), nil)
 			}
-			if len(rest) > 0 && !d.c.closed {
+			if len(rest) > 0 && !d.c.closed && !d.c.faultFired {
 				c.Violation("wire-truncated", "free-running pass: partial frame at end of wire", nil)
 			}
 			c.Add("race_runs", 1)
